@@ -208,6 +208,10 @@ func (rd *renderer) directive(level int, keyword string, params []string, annota
 	begin := rd.sb.Len()
 	rd.sb.WriteString(keyword)
 	for _, p := range params {
+		// a parameter that needs no quotes may be quoted all the same (names, notations, type references, formats…)
+		if !strings.HasPrefix(p, "\"") && rd.st != nil && rd.st.QuoteParams > 0 && rd.st.chance(rd.st.QuoteParams*2) {
+			p = quote(p)
+		}
 		rd.sb.WriteString(rd.sep() + p)
 	}
 	rd.sb.WriteString(rd.annot(annotation))
